@@ -1,7 +1,217 @@
-(* Proofs/Cfg.v -- lemmas about Model/Cfg.v (C08, C09). *)
+(* Proofs/Cfg.v -- lemmas about Model/Cfg.v for C09 (arbitrary profile bytes): every entry point
+   returns (no Panic, the loop fuel is never exhausted), validate accepts iff build accepts.
+   The constructor side (C08) is Proofs/CfgSettings.v. *)
 From XMT Require Import Base.Prelude Base.BitLemmas Model.Cfg.
 From Coq Require Import ZifyBool.
 Ltac Zify.zify_post_hook ::= Z.div_mod_to_equations.
 
 Lemma validate_nil : validate [] = Ok tt.
 Proof. reflexivity. Qed.
+
+(* ---- byte strings, total index ---------------------------------------------------------- *)
+Definition bytes (c : list Z) : Prop := Forall (fun b => 0 <= b < 256) c.
+
+(* the byte at i (0 outside the string) *)
+Definition nz (c : list Z) (i : Z) : Z := nth (Z.to_nat i) c 0.
+
+Lemma nz_byte c i : bytes c -> 0 <= nz c i < 256.
+Proof.
+  intros H. unfold nz. destruct (nth_in_or_default (Z.to_nat i) c 0) as [Hin|E].
+  - unfold bytes in H. rewrite Forall_forall in H. apply H. exact Hin.
+  - rewrite E. lia.
+Qed.
+
+Lemma idx_in c i : 0 <= i < len c -> idx c i = Ok (nz c i).
+Proof.
+  intros H. unfold idx, nz, len in *. replace (i <? 0) with false by lia.
+  destruct (nth_error c (Z.to_nat i)) eqn:E.
+  - f_equal. symmetry. apply nth_error_nth. exact E.
+  - apply nth_error_None in E. lia.
+Qed.
+
+Lemma idx_out c i : i < 0 \/ len c <= i -> @idx Z c i = Panic.
+Proof.
+  intros H. unfold idx, len in *. destruct (i <? 0) eqn:E; [reflexivity|].
+  replace (nth_error c (Z.to_nat i)) with (@None Z); [reflexivity|].
+  symmetry. apply nth_error_None. lia.
+Qed.
+
+Lemma slice_in {A} (c : list A) a b : 0 <= a -> a <= b -> b <= len c -> slice c a b = Ok (take (b - a) (drop a c)).
+Proof. intros. unfold slice. replace ((a <? 0) || (b <? a) || (len c <? b)) with false by lia. reflexivity. Qed.
+
+Lemma w16_val hi lo : 0 <= hi -> 0 <= lo < 256 -> w16 hi lo = hi * 256 + lo.
+Proof.
+  intros. unfold w16. rewrite Z.lor_comm. change 256 with (2 ^ 8). apply lor_shiftl_add; lia.
+Qed.
+Lemma w16_range hi lo : 0 <= hi < 256 -> 0 <= lo < 256 -> 0 <= w16 hi lo < 65536.
+Proof. intros. rewrite w16_val by lia. lia. Qed.
+Global Opaque w16.
+
+(* ---- "returns": neither a panic nor an exhausted loop ---------------------------------------- *)
+Definition fine {A} (r : res A) : Prop :=
+  match r with Ok _ => True | Err e => e <> EFuel | Panic => False end.
+
+Lemma fine_bind {A B} (e : res A) (k : A -> res B) :
+  fine e -> (forall x, e = Ok x -> fine (k x)) -> fine (bind e k).
+Proof. destruct e; cbn; auto. Qed.
+
+Lemma fine_ok {A} (r : res A) : fine r -> (exists v, r = Ok v) \/ (exists e, r = Err e /\ e <> EFuel).
+Proof. destruct r; cbn; intros H; [left; eauto|right; eauto|tauto]. Qed.
+
+(* ---- Config.next --------------------------------------------------------------------------- *)
+Lemma wc2_walk_ok c : bytes c -> forall x n, exists r, wc2_walk c x n = Ok r /\ n <= r.
+Proof.
+  intros Hb. induction x as [|x IH]; intros n; cbn [wc2_walk].
+  - eexists; split; [reflexivity|lia].
+  - destruct ((n + 1 <? len c) && (0 <? n)) eqn:E.
+    + rewrite !idx_in by lia. cbv beta iota delta [bind].
+      destruct (IH (n + (nz c n + nz c (n + 1) + 2))) as [r [-> Hr]].
+      pose proof (nz_byte c n Hb). pose proof (nz_byte c (n + 1) Hb).
+      eexists; split; [reflexivity|lia].
+    + eexists; split; [reflexivity|lia].
+Qed.
+
+Lemma dns_walk_ok c : bytes c -> forall x n, 0 <= n -> exists r, dns_walk c x n = Ok r /\ n <= r.
+Proof.
+  intros Hb. induction x as [|x IH]; intros n Hn; cbn [dns_walk].
+  - eexists; split; [reflexivity|lia].
+  - destruct (n <? len c) eqn:E.
+    + rewrite !idx_in by lia. cbv beta iota delta [bind].
+      pose proof (nz_byte c n Hb).
+      destruct (IH (n + (nz c n + 1))) as [r [-> Hr]]; [lia|].
+      eexists; split; [reflexivity|lia].
+    + eexists; split; [reflexivity|lia].
+Qed.
+
+(* the offset at which the WC2 header pairs start *)
+Definition wc2_n0 (c : list Z) (i : Z) : Z :=
+  i + 8 + w16 (nz c (i + 1)) (nz c (i + 2)) + w16 (nz c (i + 3)) (nz c (i + 4)) + w16 (nz c (i + 5)) (nz c (i + 6)).
+
+Ltac byte_facts c i Hb :=
+  pose proof (nz_byte c (i + 1) Hb); pose proof (nz_byte c (i + 2) Hb); pose proof (nz_byte c (i + 3) Hb);
+  pose proof (nz_byte c (i + 4) Hb); pose proof (nz_byte c (i + 5) Hb); pose proof (nz_byte c (i + 6) Hb);
+  pose proof (nz_byte c (i + 7) Hb);
+  pose proof (w16_range (nz c (i + 1)) (nz c (i + 2)) ltac:(assumption) ltac:(assumption));
+  pose proof (w16_range (nz c (i + 2)) (nz c (i + 3)) ltac:(assumption) ltac:(assumption));
+  pose proof (w16_range (nz c (i + 3)) (nz c (i + 4)) ltac:(assumption) ltac:(assumption));
+  pose proof (w16_range (nz c (i + 4)) (nz c (i + 5)) ltac:(assumption) ltac:(assumption));
+  pose proof (w16_range (nz c (i + 5)) (nz c (i + 6)) ltac:(assumption) ltac:(assumption));
+  pose proof (w16_range (nz c (i + 6)) (nz c (i + 7)) ltac:(assumption) ltac:(assumption)).
+
+(* next returns for every offset inside the string, and either gives up (-1) or moves forward *)
+Lemma next_ok c i : bytes c -> 0 <= i < len c -> exists n, next c i = Ok n /\ (n = -1 \/ i < n).
+Proof.
+  intros Hb Hi. unfold next.
+  replace ((len c <? i) || (i <? 0)) with false by lia.
+  rewrite idx_in by lia. cbv beta iota delta [bind].
+  byte_facts c i Hb.
+  destruct (kind_of (nz c i));
+    try (eexists; split; [reflexivity|lia]);
+    (match goal with |- context [if len c <=? ?k then _ else _] => destruct (len c <=? k) eqn:E1 end;
+     [eexists; split; [reflexivity|lia]|]);
+    rewrite !idx_in by lia; cbv beta iota zeta delta [bind];
+    try (eexists; split; [reflexivity|lia]).
+  - (* WC2 *)
+    fold (wc2_n0 c i). assert (i + 8 <= wc2_n0 c i) by (unfold wc2_n0; lia).
+    destruct (len c <=? wc2_n0 c i) eqn:E2; [eexists; split; [reflexivity|lia]|].
+    rewrite idx_in by lia. cbv beta iota delta [bind].
+    destruct (nz c (i + 7) =? 0); [eexists; split; [reflexivity|lia]|].
+    destruct (wc2_walk_ok c Hb (Z.to_nat (nz c (i + 7))) (wc2_n0 c i)) as [r [-> Hr]].
+    eexists; split; [reflexivity|lia].
+  - (* DNS *)
+    destruct (dns_walk_ok c Hb (Z.to_nat (nz c (i + 1))) (i + 2)) as [r [-> Hr]]; [lia|].
+    eexists; split; [reflexivity|lia].
+Qed.
+
+Lemma next_out c i : i < 0 \/ len c < i -> next c i = Ok (-1).
+Proof. intros H. unfold next. replace ((len c <? i) || (i <? 0)) with true by lia. reflexivity. Qed.
+
+(* ---- fixn: the caller's reset --------------------------------------------------------------- *)
+Lemma fixn_range c i r : 0 <= i < len c -> r = -1 \/ i < r -> i < fixn c i r <= len c.
+Proof. intros Hi Hr. unfold fixn. destruct ((r =? i) || (len c <? r) || (r =? -1) || (r <? i)) eqn:E; lia. Qed.
+
+Lemma fixn_fwd c i r : 0 <= i -> i < r -> fixn c i r = if r <=? len c then r else len c.
+Proof.
+  intros Hi Hr. unfold fixn.
+  destruct (r <=? len c) eqn:E.
+  - replace ((r =? i) || (len c <? r) || (r =? -1) || (r <? i)) with false by lia. reflexivity.
+  - replace ((r =? i) || (len c <? r) || (r =? -1) || (r <? i)) with true by lia. reflexivity.
+Qed.
+
+Lemma fixn_m1 c i : fixn c i (-1) = len c.
+Proof. unfold fixn. replace ((-1 =? i) || (len c <? -1) || (-1 =? -1) || (-1 <? i)) with true by lia. reflexivity. Qed.
+
+(* ---- the WC2 header pairs: what next walked over is what validate / build / MarshalJSON re-walk ---- *)
+Inductive hsafe (c : list Z) (n : Z) : Z -> Prop :=
+| hs_stop v : n <= v -> hsafe c n v
+| hs_step v : v + 1 < len c -> hsafe c n (v + (nz c v + nz c (v + 1) + 2)) -> hsafe c n v.
+
+Lemma walk_hsafe c : bytes c -> forall x p r, wc2_walk c x p = Ok r ->
+  forall n, n = (if r <=? len c then r else len c) -> hsafe c n p.
+Proof.
+  intros Hb. induction x as [|x IH]; intros p r Hw n Hn; cbn [wc2_walk] in Hw.
+  - injection Hw as <-. subst n. apply hs_stop. destruct (p <=? len c) eqn:E; lia.
+  - destruct ((p + 1 <? len c) && (0 <? p)) eqn:E.
+    + rewrite !idx_in in Hw by lia. cbv beta iota delta [bind] in Hw.
+      apply hs_step; [lia|]. eapply IH; eauto.
+    + injection Hw as <-. subst n. apply hs_stop. destruct (p <=? len c) eqn:E2; lia.
+Qed.
+
+Lemma next_wc2_hsafe c i r : bytes c -> 0 <= i -> i + 7 < len c -> kind_of (nz c i) = KWC2 ->
+  next c i = Ok r -> hsafe c (fixn c i r) (wc2_n0 c i).
+Proof.
+  intros Hb Hi H7 K. unfold next.
+  replace ((len c <? i) || (i <? 0)) with false by lia.
+  rewrite idx_in by lia. cbv beta iota delta [bind]. rewrite K.
+  replace (len c <=? i + 7) with false by lia.
+  rewrite !idx_in by lia. cbv beta iota zeta delta [bind].
+  byte_facts c i Hb.
+  fold (wc2_n0 c i). assert (i + 8 <= wc2_n0 c i) by (unfold wc2_n0; lia).
+  destruct (len c <=? wc2_n0 c i) eqn:E2.
+  { intros [= <-]. apply hs_stop. rewrite fixn_m1. lia. }
+  rewrite idx_in by lia. cbv beta iota delta [bind].
+  destruct (nz c (i + 7) =? 0).
+  { intros [= <-]. apply hs_stop. rewrite fixn_fwd by lia. destruct (wc2_n0 c i <=? len c); lia. }
+  intros Hw. destruct (wc2_walk_ok c Hb (Z.to_nat (nz c (i + 7))) (wc2_n0 c i)) as [r' [Hw' Hr]].
+  rewrite Hw in Hw'. injection Hw' as <-.
+  eapply walk_hsafe; eauto. apply fixn_fwd; lia.
+Qed.
+
+Lemma wc2_hdrs_fine c i n : bytes c -> 0 <= i -> n <= len c ->
+  forall v, hsafe c n v -> forall fuel q j, i <= v -> n - v < Z.of_nat fuel -> 0 < Z.of_nat fuel ->
+  fine (wc2_hdrs fuel c i n v q j).
+Proof.
+  intros Hb Hi Hn v Hs. induction Hs as [v Hv|v Hv Hs IH]; intros fuel q j Hiv Hf Hf0.
+  - destruct fuel as [|f]; [lia|]. cbn [wc2_hdrs].
+    replace ((v <? n) && (q <? n) && (j <? n)) with false by lia. exact I.
+  - destruct fuel as [|f]; [lia|]. cbn [wc2_hdrs].
+    destruct ((v <? n) && (q <? n) && (j <? n)) eqn:E; [|exact I].
+    rewrite !idx_in by lia. cbv beta iota zeta delta [bind].
+    pose proof (nz_byte c v Hb). pose proof (nz_byte c (v + 1) Hb).
+    match goal with |- fine (if ?b then _ else _) => destruct b eqn:E2 end; [cbn; discriminate|].
+    rewrite !slice_in by lia. cbv beta iota delta [bind].
+    apply fine_bind; [|intros; exact I].
+    replace (nz c (v + 1) + (nz c v + v + 2)) with (v + (nz c v + nz c (v + 1) + 2)) by lia.
+    apply IH; lia.
+Qed.
+
+(* ---- the DNS names ------------------------------------------------------------------------------ *)
+Lemma dns_names_fine c i n : bytes c -> 0 <= i -> n <= len c ->
+  forall x v e, 0 <= v -> fine (dns_names x c i n v e).
+Proof.
+  intros Hb Hi Hn. induction x as [|x IH]; intros v e Hv; cbn [dns_names]; [exact I|].
+  destruct (v <? n) eqn:E; [|exact I].
+  rewrite idx_in by lia. cbv beta iota zeta delta [bind].
+  pose proof (nz_byte c v Hb).
+  match goal with |- fine (if ?b then _ else _) => destruct b eqn:E2 end; [cbn; discriminate|].
+  rewrite slice_in by lia. cbv beta iota delta [bind].
+  apply fine_bind; [|intros; exact I].
+  apply IH. lia.
+Qed.
+
+Lemma rd_be_ok c i k : 0 <= i -> i + Z.of_nat k <= len c -> exists u, rd_be c i k = Ok u.
+Proof.
+  unfold rd_be. generalize 0 as acc. revert i. induction k as [|k IH]; intros i acc Hi Hk.
+  - eexists; reflexivity.
+  - rewrite idx_in by lia. cbv beta iota delta [bind]. apply IH; lia.
+Qed.
